@@ -176,7 +176,29 @@ impl Sim {
                 choices.push((n.clone(), c));
             }
             // extremes first (none / all), then the cross product up to the cap
-            let total: usize = choices.iter().map(|c| c.1.len()).product();
+            let total: usize = choices.iter().map(|c| c.1.len()).fold(1usize, |a, b| a.saturating_mul(b));
+            if total > cap {
+                // Too many combinations for this directory prefix: instead of an arbitrary slice of
+                // the product, take its two corners (every file at its oldest / at its newest
+                // content) and, for each file in turn, every one of its contents with all other
+                // files at the oldest and at the newest. Reported as a cap hit.
+                *capped = true;
+                for other_newest in [false, true] {
+                    for (k, (_, ck)) in choices.iter().enumerate() {
+                        for i in 0..ck.len() {
+                            let img: Image = choices
+                                .iter()
+                                .enumerate()
+                                .map(|(j, (n, c))| (n.clone(), if j == k { c[i].clone() } else if other_newest { c[c.len() - 1].clone() } else { c[0].clone() }))
+                                .collect();
+                            if !out.contains(&img) {
+                                out.push(img);
+                            }
+                        }
+                    }
+                }
+                continue;
+            }
             let mut idx = vec![0usize; choices.len()];
             let mut emitted = 0usize;
             loop {
@@ -282,7 +304,7 @@ fn cont_alphabet() -> Vec<Op> {
 /// application of op j+1 (truncate / delete) on S_j for lo <= j < hi.
 fn allowed(r: &Obs, states: &[Model], ops: &[COp], lo: usize, hi: usize) -> Option<String> {
     for j in (lo..=hi).rev() {
-        if *r == model_obs(&states[j]) {
+        if obs_is_model(r, &states[j]) {
             return Some(format!("S_{}", j));
         }
     }
@@ -292,6 +314,17 @@ fn allowed(r: &Obs, states: &[Model], ops: &[COp], lo: usize, hi: usize) -> Opti
         }
     }
     None
+}
+
+/// `*r == model_obs(m)` without building the observation (long histories have hundreds of states).
+fn obs_is_model(r: &Obs, m: &Model) -> bool {
+    r.len() == m.queues.len()
+        && r.iter().zip(m.queues.iter()).all(|((rn, rq), (mn, mq))| {
+            rn == mn
+                && rq.last_pos == mq.last_position()
+                && rq.recs.len() == mq.recs.len()
+                && rq.recs.iter().zip(mq.recs.iter()).all(|(a, b)| a.0 == b.0 && a.1[..] == b.1[..])
+        })
 }
 
 fn partial_match(r: &Obs, prev: &Model, next: &Model, op: &COp) -> bool {
@@ -662,7 +695,7 @@ fn short_event(e: &Event) -> String {
 fn eval_point(stats: &mut Stats, ctx: &Ctx, sim: &Sim, point: serde_json::Value, structural: bool) {
     if ctx.cfg.power_loss {
         let mut capped = false;
-        let images = sim.power_loss_images(if TINY { 4096 } else { 64 }, &mut capped);
+        let images = sim.power_loss_images(if TINY { 1024 } else { 64 }, &mut capped);
         if capped {
             stats.count("power_loss_image_cap_hit", 1);
         }
